@@ -161,14 +161,6 @@ Proof.
   destruct it; cbn [l_item enc]; rewrite ?len_app, ?be_len; try reflexivity; cbn; lia.
 Qed.
 
-(* ---------- stream writers: the bytes handed to the buffered writer, in order ---------- *)
-Lemma sw_item_enc it : concat (map wop_bytes (sw_item it)) = enc it.
-Proof.
-  destruct it as [b|v|v|v|v|bits|v|v|t id| |kt vt sz|et sz|et sz];
-    cbn [sw_item map wop_bytes concat enc app]; rewrite ?app_nil_r; try reflexivity.
-  rewrite be2, hi_byte_shift, (u8_of_u16 id). reflexivity.
-Qed.
-
 (* ---------- in-place writers ---------- *)
 Lemma copy_to_at pre old rest v off :
   off = len pre -> len old = len v ->
@@ -451,3 +443,277 @@ Proof.
   - apply r_item_enc_8. - apply r_item_enc_9. - apply r_item_enc_10. - apply r_item_enc_11.
   - apply r_item_enc_12.
 Qed.
+
+(* ====================================================================================== *)
+(* ---------- in-place writers at an offset: Binary.WriteX(buf[off:], v) ---------- *)
+Lemma slice_from_ok {A} (b : list A) off : off <= len b -> slice_from b off = Ok (drop off b).
+Proof. intros H. unfold slice_from. destruct (N.leb_spec off (len b)); [reflexivity|lia]. Qed.
+
+Lemma w_at_enc buf off it :
+  off + len (enc it) <= len buf ->
+  w_at buf off it = Ok (take off buf ++ enc it ++ drop (off + len (enc it)) buf, len (enc it)).
+Proof.
+  intros H. unfold w_at. rewrite slice_from_ok by lia. cbn [bind].
+  rewrite w_item_enc by (rewrite drop_len; lia). cbn [bind].
+  now rewrite drop_drop.
+Qed.
+
+Lemma nth_skipn' {A} (l : list A) n i d : nth i (skipn n l) d = nth (n + i) l d.
+Proof.
+  revert l; induction n as [|n IH]; intros l; [reflexivity|].
+  destruct l as [|x l]; cbn [skipn Nat.add nth]; [now destruct i|apply IH].
+Qed.
+
+(* every position outside [off, off + |enc it|) keeps its byte *)
+Lemma nth_app_l_len {A} (a b : list A) i d : (i < length a)%nat -> nth i (a ++ b) d = nth i a d.
+Proof. intros H. now apply app_nth1. Qed.
+
+Lemma w_at_frame buf off it b' n i d :
+  off + len (enc it) <= len buf -> w_at buf off it = Ok (b', n) ->
+  (N.of_nat i < off \/ off + len (enc it) <= N.of_nat i) -> nth i b' d = nth i buf d.
+Proof.
+  intros Hfit Hw Hi. rewrite w_at_enc in Hw by exact Hfit. inversion Hw; subst b' n. clear Hw.
+  transitivity (nth i (take off buf ++ drop off buf) d); [|now rewrite take_drop].
+  assert (Hlt : length (take off buf) = N.to_nat off).
+  { pose proof (take_len off buf ltac:(lia)) as Hl. unfold len in Hl. lia. }
+  destruct Hi as [Hi|Hi].
+  - rewrite !app_nth1 by lia. reflexivity.
+  - rewrite (app_nth2 (take off buf) (enc it ++ _)) by lia.
+    rewrite (app_nth2 (take off buf) (drop off buf)) by lia. rewrite Hlt.
+    assert (Hle : length (enc it) = N.to_nat (len (enc it))) by (unfold len; lia).
+    rewrite app_nth2 by lia.
+    unfold drop. rewrite !nth_skipn'. f_equal. lia.
+Qed.
+
+Lemma w_at_len buf off it b' n :
+  off + len (enc it) <= len buf -> w_at buf off it = Ok (b', n) -> len b' = len buf.
+Proof.
+  intros Hfit Hw. rewrite w_at_enc in Hw by exact Hfit. inversion Hw; subst.
+  rewrite !len_app, take_len, drop_len by lia. lia.
+Qed.
+
+(* ---------- bool decodes as "byte = 1" ---------- *)
+Lemma r_bool_decodes x rest : r_bool (x :: rest) = Ok (x =? 1, 1).
+Proof. unfold r_bool. rewrite need_ok by (rewrite len_cons; lia). reflexivity. Qed.
+
+(* ---------- totality and extent bounds of the buffer readers on ARBITRARY bytes ---------- *)
+Ltac need_case b k :=
+  unfold need; destruct (N.ltb_spec (len b) k); cbn [bind safe].
+
+Lemma r_bool_total b : safe (r_bool b).
+Proof. unfold r_bool. need_case b 1; exact I. Qed.
+Lemma r_byte_total b : safe (r_byte b).
+Proof. unfold r_byte. need_case b 1; exact I. Qed.
+Lemma r_i16_total b : safe (r_i16 b).
+Proof. unfold r_i16. need_case b 2; exact I. Qed.
+Lemma r_i32_total b : safe (r_i32 b).
+Proof. unfold r_i32. need_case b 4; exact I. Qed.
+Lemma r_i64_total b : safe (r_i64 b).
+Proof. unfold r_i64. need_case b 8; exact I. Qed.
+Lemma r_double_total b : safe (r_double b).
+Proof. unfold r_double. need_case b 8; exact I. Qed.
+
+Lemma r_i32_cases b : (len b < 4 /\ r_i32 b = Err e_read_i32) \/ (4 <= len b /\ r_i32 b = Ok (i32 (unbe (take 4 b)), 4)).
+Proof. unfold r_i32. need_case b 4; [left|right]; split; auto. Qed.
+
+Lemma r_binary_gen_total e b : safe (r_binary_gen e b).
+Proof.
+  unfold r_binary_gen. destruct (r_i32_cases b) as [[_ ->]|[_ ->]]; [exact I|].
+  destruct (Z.ltb_spec (i32 (unbe (take 4 b))) 0); [exact I|].
+  destruct (N.ltb_spec (len b) (4 + Z.to_N (i32 (unbe (take 4 b))))); exact I.
+Qed.
+Lemma r_binary_total b : safe (r_binary b). Proof. apply r_binary_gen_total. Qed.
+Lemma r_string_total b : safe (r_string b). Proof. apply r_binary_gen_total. Qed.
+
+Lemma r_field_begin_total b : safe (r_field_begin b).
+Proof.
+  unfold r_field_begin. need_case b 1; [exact I|].
+  destruct (Z.eqb (i8 (nth 0 b 0)) thrift_STOP); [exact I|]. need_case b 3; exact I.
+Qed.
+Lemma r_map_begin_total b : safe (r_map_begin b).
+Proof. unfold r_map_begin. need_case b 6; exact I. Qed.
+Lemma r_list_begin_total b : safe (r_list_begin b).
+Proof. unfold r_list_begin, r_list_begin_gen. need_case b 5; exact I. Qed.
+Lemma r_set_begin_total b : safe (r_set_begin b).
+Proof. unfold r_set_begin, r_list_begin_gen. need_case b 5; exact I. Qed.
+
+Ltac need_inv b k H :=
+  let Hk := fresh "Hk" in
+  unfold need in H; destruct (N.ltb_spec (len b) k) as [Hk|Hk]; cbn [bind] in H; [discriminate|inversion H; subst; lia].
+
+Lemma r_bool_bounded b v n : r_bool b = Ok (v, n) -> n <= len b.
+Proof. intros H. unfold r_bool in H. need_inv b 1 H. Qed.
+Lemma r_byte_bounded b v n : r_byte b = Ok (v, n) -> n <= len b.
+Proof. intros H. unfold r_byte in H. need_inv b 1 H. Qed.
+Lemma r_i16_bounded b v n : r_i16 b = Ok (v, n) -> n <= len b.
+Proof. intros H. unfold r_i16 in H. need_inv b 2 H. Qed.
+Lemma r_i32_bounded b v n : r_i32 b = Ok (v, n) -> n <= len b.
+Proof. intros H. unfold r_i32 in H. need_inv b 4 H. Qed.
+Lemma r_i64_bounded b v n : r_i64 b = Ok (v, n) -> n <= len b.
+Proof. intros H. unfold r_i64 in H. need_inv b 8 H. Qed.
+Lemma r_double_bounded b v n : r_double b = Ok (v, n) -> n <= len b.
+Proof. intros H. unfold r_double in H. need_inv b 8 H. Qed.
+
+(* exact shape of a successful string read *)
+Lemma r_binary_gen_ok e b v n :
+  r_binary_gen e b = Ok (v, n) ->
+  exists sz, 4 <= len b /\ i32 (unbe (take 4 b)) = Z.of_N sz /\ n = 4 + sz /\ n <= len b /\ v = take sz (drop 4 b).
+Proof.
+  unfold r_binary_gen. destruct (r_i32_cases b) as [[_ ->]|[H4 ->]]; [discriminate|].
+  destruct (Z.ltb_spec (i32 (unbe (take 4 b))) 0); [discriminate|].
+  destruct (N.ltb_spec (len b) (4 + Z.to_N (i32 (unbe (take 4 b))))); [discriminate|].
+  intros Hx. inversion Hx; subst. exists (Z.to_N (i32 (unbe (take 4 b)))).
+  split; [exact H4|]. split; [lia|]. split; [reflexivity|]. split; [assumption|reflexivity].
+Qed.
+Lemma r_binary_gen_bounded e b v n : r_binary_gen e b = Ok (v, n) -> n <= len b.
+Proof. intros H. apply r_binary_gen_ok in H as (sz & _ & _ & _ & H & _). exact H. Qed.
+Lemma r_binary_bounded b v n : r_binary b = Ok (v, n) -> n <= len b.
+Proof. apply r_binary_gen_bounded. Qed.
+Lemma r_string_bounded b v n : r_string b = Ok (v, n) -> n <= len b.
+Proof. apply r_binary_gen_bounded. Qed.
+(* the errors of the string readers *)
+Lemma r_binary_gen_err e b x : r_binary_gen e b = Err x -> x = e \/ x = e_neg_size.
+Proof.
+  unfold r_binary_gen. destruct (r_i32_cases b) as [[_ ->]|[H4 ->]]; [intros Hx; inversion Hx; auto|].
+  destruct (Z.ltb_spec (i32 (unbe (take 4 b))) 0) as [Hn|Hn]; [intros Hx; inversion Hx; auto|].
+  destruct (N.ltb_spec (len b) (4 + Z.to_N (i32 (unbe (take 4 b))))) as [Hs|Hs]; intros Hx; inversion Hx; auto.
+Qed.
+
+Lemma r_field_begin_bounded b t id n : r_field_begin b = Ok (t, id, n) -> n <= len b.
+Proof.
+  unfold r_field_begin. unfold need. destruct (N.ltb_spec (len b) 1) as [H1|H1]; cbn [bind]; [discriminate|].
+  destruct (Z.eqb (i8 (nth 0 b 0)) thrift_STOP); [intros Hx; inversion Hx; subst; lia|].
+  destruct (N.ltb_spec (len b) 3) as [H3|H3]; cbn [bind]; [discriminate|]. intros Hx; inversion Hx; subst; lia.
+Qed.
+Lemma r_map_begin_bounded b kt vt sz n : r_map_begin b = Ok (kt, vt, sz, n) -> n <= len b.
+Proof. intros H. unfold r_map_begin in H. need_inv b 6 H. Qed.
+Lemma r_list_begin_bounded b et sz n : r_list_begin b = Ok (et, sz, n) -> n <= len b.
+Proof. intros H. unfold r_list_begin, r_list_begin_gen in H. need_inv b 5 H. Qed.
+Lemma r_set_begin_bounded b et sz n : r_set_begin b = Ok (et, sz, n) -> n <= len b.
+Proof. intros H. unfold r_set_begin, r_list_begin_gen in H. need_inv b 5 H. Qed.
+
+Lemma r_item_total k b : safe (r_item k b).
+Proof.
+  destruct k; cbn [r_item].
+  - pose proof (r_bool_total b). destruct (r_bool b) as [[? ?]| | |]; cbn [bind safe] in *; auto.
+  - pose proof (r_byte_total b). destruct (r_byte b) as [[? ?]| | |]; cbn [bind safe] in *; auto.
+  - pose proof (r_i16_total b). destruct (r_i16 b) as [[? ?]| | |]; cbn [bind safe] in *; auto.
+  - pose proof (r_i32_total b). destruct (r_i32 b) as [[? ?]| | |]; cbn [bind safe] in *; auto.
+  - pose proof (r_i64_total b). destruct (r_i64 b) as [[? ?]| | |]; cbn [bind safe] in *; auto.
+  - pose proof (r_double_total b). destruct (r_double b) as [[? ?]| | |]; cbn [bind safe] in *; auto.
+  - pose proof (r_binary_total b). destruct (r_binary b) as [[? ?]| | |]; cbn [bind safe] in *; auto.
+  - pose proof (r_string_total b). destruct (r_string b) as [[? ?]| | |]; cbn [bind safe] in *; auto.
+  - pose proof (r_field_begin_total b). destruct (r_field_begin b) as [[[? ?] ?]| | |]; cbn [bind safe] in *; auto.
+  - pose proof (r_map_begin_total b). destruct (r_map_begin b) as [[[[? ?] ?] ?]| | |]; cbn [bind safe] in *; auto.
+  - pose proof (r_list_begin_total b). destruct (r_list_begin b) as [[[? ?] ?]| | |]; cbn [bind safe] in *; auto.
+  - pose proof (r_set_begin_total b). destruct (r_set_begin b) as [[[? ?] ?]| | |]; cbn [bind safe] in *; auto.
+Qed.
+
+Lemma r_item_bounded k b it n : r_item k b = Ok (it, n) -> n <= len b.
+Proof.
+  destruct k; cbn [r_item].
+  - destruct (r_bool b) as [[v m]| | |] eqn:E; cbn [bind]; try discriminate. intros H; inversion H; subst. eapply r_bool_bounded; eauto.
+  - destruct (r_byte b) as [[v m]| | |] eqn:E; cbn [bind]; try discriminate. intros H; inversion H; subst. eapply r_byte_bounded; eauto.
+  - destruct (r_i16 b) as [[v m]| | |] eqn:E; cbn [bind]; try discriminate. intros H; inversion H; subst. eapply r_i16_bounded; eauto.
+  - destruct (r_i32 b) as [[v m]| | |] eqn:E; cbn [bind]; try discriminate. intros H; inversion H; subst. eapply r_i32_bounded; eauto.
+  - destruct (r_i64 b) as [[v m]| | |] eqn:E; cbn [bind]; try discriminate. intros H; inversion H; subst. eapply r_i64_bounded; eauto.
+  - destruct (r_double b) as [[v m]| | |] eqn:E; cbn [bind]; try discriminate. intros H; inversion H; subst. eapply r_double_bounded; eauto.
+  - destruct (r_binary b) as [[v m]| | |] eqn:E; cbn [bind]; try discriminate. intros H; inversion H; subst. eapply r_binary_bounded; eauto.
+  - destruct (r_string b) as [[v m]| | |] eqn:E; cbn [bind]; try discriminate. intros H; inversion H; subst. eapply r_string_bounded; eauto.
+  - destruct (r_field_begin b) as [[[t id] m]| | |] eqn:E; cbn [bind]; try discriminate. intros H; inversion H; subst. eapply r_field_begin_bounded; eauto.
+  - destruct (r_map_begin b) as [[[[kt vt] sz] m]| | |] eqn:E; cbn [bind]; try discriminate. intros H; inversion H; subst. eapply r_map_begin_bounded; eauto.
+  - destruct (r_list_begin b) as [[[et sz] m]| | |] eqn:E; cbn [bind]; try discriminate. intros H; inversion H; subst. eapply r_list_begin_bounded; eauto.
+  - destruct (r_set_begin b) as [[[et sz] m]| | |] eqn:E; cbn [bind]; try discriminate. intros H; inversion H; subst. eapply r_set_begin_bounded; eauto.
+Qed.
+
+(* ---------- a sequence of in-place writes ---------- *)
+Lemma w_seq_enc its : forall buf off,
+  off + len (concat (map enc its)) <= len buf ->
+  w_seq buf off its =
+    Ok (take off buf ++ concat (map enc its) ++ drop (off + len (concat (map enc its))) buf, map (fun it => len (enc it)) its).
+Proof.
+  induction its as [|it its IH]; intros buf off Hfit; cbn [w_seq map concat] in *.
+  - cbn [app]. rewrite len_nil, N.add_0_r. now rewrite take_drop.
+  - rewrite len_app in Hfit. rewrite w_at_enc by lia. cbn [bind].
+    set (b1 := take off buf ++ enc it ++ drop (off + len (enc it)) buf).
+    assert (Hl1 : len b1 = len buf).
+    { unfold b1. rewrite !len_app, take_len, drop_len by lia. lia. }
+    rewrite IH by lia. cbn [bind]. f_equal. f_equal.
+    assert (Ht : take (off + len (enc it)) b1 = take off buf ++ enc it).
+    { unfold b1. rewrite app_assoc. apply take_app_exact. rewrite len_app, take_len by lia. reflexivity. }
+    assert (Hd : drop (off + len (enc it) + len (concat (map enc its))) b1 =
+                 drop (off + (len (enc it) + len (concat (map enc its)))) buf).
+    { unfold b1. rewrite app_assoc.
+      replace (off + len (enc it) + len (concat (map enc its)))
+        with (len (take off buf ++ enc it) + len (concat (map enc its)))
+        by (rewrite len_app, take_len by lia; reflexivity).
+      rewrite <- drop_drop, drop_app_len, drop_drop. f_equal. lia. }
+    rewrite Ht, Hd, len_app, <- !app_assoc. reflexivity.
+Qed.
+
+(* field headers read directly *)
+Lemma r_field_begin_enc t id rest :
+  in_signed 8 t -> in_signed 16 id -> t <> 0%Z ->
+  r_field_begin (enc (IFieldBegin t id) ++ rest) = Ok (t, id, 3).
+Proof.
+  intros Ht Hid Hnz. cbn [enc]. unfold r_field_begin. cbn [app].
+  rewrite need_ok by (rewrite len_cons; lia). cbn [bind nth].
+  rewrite i8_u8 by exact Ht. change thrift_STOP with 0%Z.
+  destruct (Z.eqb_spec t 0) as [->|_]; [congruence|].
+  rewrite need_ok by (rewrite len_cons, len_app, be_len; lia). cbn [bind].
+  change (drop 1 (u8 t :: be 2 (u16 id) ++ rest)) with (be 2 (u16 id) ++ rest).
+  rewrite take_be2, unbe_be2 by apply u16_lt. now rewrite i16_u16.
+Qed.
+Lemma r_field_begin_stop rest : r_field_begin (0 :: rest) = Ok (0%Z, 0%Z, 1).
+Proof.
+  unfold r_field_begin. rewrite need_ok by (rewrite len_cons; lia). cbn [bind nth].
+  change (i8 0) with 0%Z. change thrift_STOP with 0%Z. reflexivity.
+Qed.
+
+(* ---------- ReadMessageBegin on arbitrary bytes ---------- *)
+(* totality and extent bound on arbitrary bytes *)
+Lemma to_msg_err_ok {A} (r : res A) x : to_msg_err r = Ok x -> r = Ok x.
+Proof. destruct r; cbn [to_msg_err]; congruence. Qed.
+Lemma to_msg_err_safe {A} (r : res A) : safe r -> safe (to_msg_err r).
+Proof. destruct r; cbn [to_msg_err safe]; auto. Qed.
+
+Lemma r_message_begin_total b : safe (r_message_begin b).
+Proof.
+  unfold r_message_begin. destruct (N.ltb_spec (len b) 4) as [H4|H4]; [exact I|].
+  destruct (negb _); [exact I|].
+  rewrite slice_from_ok by lia. cbn [bind].
+  pose proof (r_string_total (drop 4 b)) as Hs.
+  destruct (r_string (drop 4 b)) as [[name l]|e|w|] eqn:E; cbn [to_msg_err bind safe] in *; auto.
+  apply r_string_bounded in E. rewrite drop_len in E by lia.
+  rewrite slice_from_ok by lia. cbn [bind].
+  pose proof (r_i32_total (drop (4 + l) b)) as Hi.
+  destruct (r_i32 (drop (4 + l) b)) as [[sq l2]|e|w|]; cbn [to_msg_err bind safe] in *; auto.
+Qed.
+
+Lemma r_message_begin_bounded b name ty seq n : r_message_begin b = Ok (name, ty, seq, n) -> n <= len b.
+Proof.
+  unfold r_message_begin. destruct (N.ltb_spec (len b) 4) as [H4|H4]; [discriminate|].
+  destruct (negb _); [discriminate|].
+  rewrite slice_from_ok by lia. cbn [bind].
+  destruct (r_string (drop 4 b)) as [[nm l]|e|w|] eqn:E; cbn [to_msg_err bind]; try discriminate.
+  apply r_string_bounded in E. rewrite drop_len in E by lia.
+  rewrite slice_from_ok by lia. cbn [bind].
+  destruct (r_i32 (drop (4 + l) b)) as [[sq l2]|e|w|] eqn:E2; cbn [to_msg_err bind]; try discriminate.
+  apply r_i32_bounded in E2. rewrite drop_len in E2 by lia.
+  intros Hx. assert (Hn : n = 4 + l + l2) by congruence. lia.
+Qed.
+
+(* the only errors of the buffer reader *)
+Lemma r_message_begin_errs b e : r_message_begin b = Err e -> e = e_read_message \/ e = e_bad_version.
+Proof.
+  unfold r_message_begin. destruct (N.ltb_spec (len b) 4) as [H4|H4]; [intros Hx; inversion Hx; auto|].
+  destruct (negb _); [intros Hx; inversion Hx; auto|].
+  rewrite slice_from_ok by lia. cbn [bind].
+  destruct (r_string (drop 4 b)) as [[nm l]|x|w|] eqn:E; cbn [to_msg_err bind]; try discriminate;
+    [|intros Hx; inversion Hx; auto].
+  apply r_string_bounded in E. rewrite drop_len in E by lia.
+  rewrite slice_from_ok by lia. cbn [bind].
+  destruct (r_i32 (drop (4 + l) b)) as [[sq l2]|x|w|] eqn:E2; cbn [to_msg_err bind]; try discriminate.
+  intros Hx; inversion Hx; auto.
+Qed.
+
